@@ -352,8 +352,10 @@ class RequirePosedge(Fragment):
 
 def _add_name(assigned_names, name):
     if name in assigned_names:
-        name = f"{name}${len(assigned_names)}"
-        assert name not in assigned_names
+        index = len(assigned_names)
+        while f"{name}${index}" in assigned_names:
+            index += 1
+        name = f"{name}${index}"
     assigned_names.add(name)
     return name
 
